@@ -190,6 +190,11 @@ def drawEvent (r : Run17) (k : Nat) (e : Json) : Except String Run17 := do
     history. -/
 def handleC17 (j : Json) : Except String Json := do
   let c ← getCfg (← j.getObjVal? "cfg")
+  let legal ← getLegal j c
+  if (← getOpt j "rejected" (·.getStr?)).isSome then
+    let h := holdsC17 [Ev17.rejected legal]
+    return Json.mkObj [("holds", Json.bool h.isNone), ("clause", jOptStr h), ("legal", Json.bool legal),
+      ("agree", Json.bool (!legal)), ("oracle_contract", Json.bool true)]
   let bT ← getNat j "bT"
   let bX ← getNat j "bX"
   let storeT0 ← getNatListD j "storeT0"
@@ -216,7 +221,7 @@ def handleC17 (j : Json) : Except String Json := do
     k := k + 1
   let holds := holdsC17 r.evs
   pure <| Json.mkObj [
-    ("holds", Json.bool holds.isNone), ("clause", jOptStr holds),
+    ("holds", Json.bool holds.isNone), ("clause", jOptStr holds), ("legal", Json.bool legal),
     ("agree", Json.bool r.bad.isNone), ("disagreement", jOptStr r.bad),
     ("oracle_contract", Json.bool r.oracle),
     ("model_steps", Json.num (r.g.st.steps : Nat)), ("model_log", Json.arr r.log.toArray)]
